@@ -4,6 +4,7 @@ from sa.report import Check
 from sa.rules import backend as B
 from sa.rules import pipeline as P
 from sa.rules import traversal as T
+from sa.rules import resolve_rules as RR
 
 
 def main(tier):
@@ -27,5 +28,7 @@ def main(tier):
     chk.run("R-NOPRECEDENCE", B.noprecedence, r, floor=3)
     chk.run("R-ABBREV", B.abbrev, r, floor=5)
     chk.run("R-DUPNAME", B.dupname, r, floor=2)
+    chk.run("R-PATHEND", RR.pathend, r, floor=5)
+    chk.run("R-SKIPLOSS", T.skiploss, r, s, cx.sites, modules=("symbol_resolver.py",), floor=1)
     chk.run("R-TRAVPARAM", T.travparam, r, s, sr_sites, floor=30, control=lambda: T.control_travparam(r))
     return chk.finish()
